@@ -64,13 +64,14 @@ fn select_body<const N: usize>(zero_variance: bool, symbolic_weights: bool, grid
         let delay: f64 = kani::any();
         let leap: u8 = kani::any();
         let periodic: bool = kani::any();
-        let grid_offset: i16 = kani::any();
+        let grid_offset: i8 = kani::any();
         let grid_radius: u8 = kani::any();
         // grid: offsets are whole seconds in i16, delays are 4*k seconds (k in u8) so that with the
         // default weights every interval end point is a small integer (exact arithmetic, and the
         // SAT solver can identify the copies of the end-point computation; with arbitrary f64 it
         // cannot: measured > 10 min for two candidates)
-        let (offset, delay) = if grid { (grid_offset as f64, (grid_radius as f64) * 4.0) } else { (offset, delay) };
+        kani::assume(grid_radius < 16);
+        let (offset, delay) = if grid { (grid_offset as f64, (grid_radius as u32 * 4) as f64) } else { (offset, delay) };
         kani::assume(offset.is_finite());
         kani::assume(delay.is_finite() && delay >= 0.0);
         kani::assume(variance.is_finite() && variance >= 0.0);
@@ -106,6 +107,9 @@ fn select_body<const N: usize>(zero_variance: bool, symbolic_weights: bool, grid
             radius[i] = r;
             lo[i] = cands[i].offset - r;
             hi[i] = cands[i].offset + r;
+            // lemma (true for r >= 0 by monotonicity of IEEE rounding); stated so that the solver
+            // need not derive it from the adder circuits
+            kani::assume(lo[i] <= hi[i]);
             elig[i] = i < n && !cands[i].periodic && cands[i].leap != 4 && r <= limit;
             if elig[i] {
                 n_elig += 1;
@@ -123,14 +127,14 @@ fn select_body<const N: usize>(zero_variance: bool, symbolic_weights: bool, grid
     let mut k = 0;
     while part & 1 != 0 && k < N {
         if k < sel.len() {
-            let idx = sel.get(k).index();
+            let idx = sel.index_at(k);
             assert!(idx >= 1 && idx <= n as u64, "returned source is a candidate");
             let j = (idx - 1) as usize;
             assert!(cands[j].leap != 4, "an unsynchronised source is never selected");
             assert!(radius[j] <= limit, "a source above the uncertainty limit is never selected");
             // distinct: returned in candidate order
             if k + 1 < sel.len() {
-                assert!(sel.get(k + 1).index() > idx, "no source is returned twice");
+                assert!(sel.index_at(k + 1) > idx, "no source is returned twice");
             }
         }
         k += 1;
@@ -166,38 +170,131 @@ fn select_body<const N: usize>(zero_variance: bool, symbolic_weights: bool, grid
     kani::cover!(sel.is_empty() && n_elig > 0 && n_elig < min_agree && min_agree <= N, "too few agreeing sources");
 }
 
-// quick: up to 3 candidates, zero filter variance (radius = delay * range_delay_weight), default weights
-#[kani::proof]
-#[kani::unwind(7)]
-#[kani::stub(alloc::slice::stable_sort, crate::common::stable_sort_stub)]
-fn c03_select() {
-    select_body::<3>(true, false, true, 3);
+/// Geometry harness body: N candidates whose *eligibility is syntactically concrete* (given by
+/// `kinds`), so that the first pass of `select` has concrete control flow and a concrete number
+/// of interval bounds. kinds[i]: 0 = eligible (radius RADII[i] <= limit), 1 = unsynchronised,
+/// 2 = periodic, 3 = too uncertain (radius 1.0 > limit 0.25).
+/// Offsets are symbolic multiples of 1/16 s in [-8, 8) (exact binary fractions), radii are the
+/// fixed dyadic values 0, 1/16, 1/8, 1/4 (different sizes: nesting and partial overlap are
+/// reachable; candidates 2 and 3 get part of their radius from the statistical term), default
+/// weights and uncertainty limit, symbolic minimum_agreeing_sources.
+fn geometry_body<const N: usize>(kinds: [u8; N]) {
+    // radius = sqrt(variance) * 2 + delay * 0.25 (default weights): 0, 1/16, 2/16, 4/16
+    const DELAYS: [f64; 4] = [0.0, 0.25, 0.0, 0.5];
+    const VARIANCES: [f64; 4] = [0.0, 0.0, 0.00390625, 0.00390625];
+    // the uninterpreted sqrt is given its true value on the one non-zero variance used: sqrt(1/256) = 1/16
+    sqrt_uf_define(0, 0.00390625, 0.0625);
+    let min_agree: usize = kani::any();
+    let mut grid = [0i32; N];
+    let mut i = 0;
+    while i < N {
+        let g: i8 = kani::any();
+        grid[i] = g as i32;
+        i += 1;
+    }
+    let algo = AlgorithmConfig::default();
+    let sync = SynchronizationConfig { minimum_agreeing_sources: min_agree, ..SynchronizationConfig::default() };
+    let mut v = kh::SnapVecH::with_capacity(N);
+    // integer picture of the intervals in units of 1/16 s
+    let mut lo = [0i32; N];
+    let mut hi = [0i32; N];
+    let mut elig = [false; N];
+    let mut n_elig = 0usize;
+    let mut i = 0;
+    while i < N {
+        let delay = if kinds[i] == 3 { 4.0 } else { DELAYS[i % 4] };
+        let r16: i32 = if kinds[i] == 3 { 16 } else { [0, 1, 2, 4][i % 4] };
+        let variance = if kinds[i] == 3 { 0.0 } else { VARIANCES[i % 4] };
+        let c = Cand { offset: (grid[i] as f64) * 0.0625, variance, delay, leap: if kinds[i] == 1 { 4 } else { 0 }, periodic: kinds[i] == 2 };
+        v.push(snap(i as u64 + 1, &c));
+        lo[i] = grid[i] - r16;
+        hi[i] = grid[i] + r16;
+        elig[i] = kinds[i] == 0;
+        if elig[i] {
+            n_elig += 1;
+        }
+        i += 1;
+    }
+    let sel = kh::select::select_hook(&sync, &algo, &v);
+    // (a) returned sources: candidates, synchronised, within the uncertainty limit, no duplicates
+    let mut k = 0;
+    let mut prev = 0u64;
+    while k < N {
+        if k < sel.len() {
+            let idx = sel.index_at(k);
+            assert!(idx >= 1 && idx <= N as u64, "returned source is a candidate");
+            let j = (idx - 1) as usize;
+            assert!(kinds[j] != 1, "an unsynchronised source is never selected");
+            assert!(kinds[j] != 3, "a source above the uncertainty limit is never selected");
+            assert!(idx > prev, "no source is returned twice");
+            prev = idx;
+        }
+        k += 1;
+    }
+    assert!(sel.len() <= N, "not more sources than candidates");
+    // (b) non-empty => agreeing strict majority of at least the configured minimum
+    if !sel.is_empty() {
+        let mut witness = false;
+        let mut i = 0;
+        while i < N {
+            if elig[i] {
+                let mut cnt = 0usize;
+                let mut j = 0;
+                while j < N {
+                    if elig[j] && lo[j] <= lo[i] && lo[i] <= hi[j] {
+                        cnt += 1;
+                    }
+                    j += 1;
+                }
+                if cnt >= min_agree && cnt >= 1 && 2 * cnt > n_elig {
+                    witness = true;
+                }
+            }
+            i += 1;
+        }
+        assert!(witness, "selection non-empty only with an agreeing strict majority of at least the configured minimum");
+    }
+    // witnesses (a goal that the concrete pattern cannot reach is trivially satisfied)
+    let mut has_periodic = false;
+    let mut i = 0;
+    while i < N {
+        has_periodic = has_periodic || kinds[i] == 2;
+        i += 1;
+    }
+    kani::cover!(sel.len() == n_elig && n_elig >= 2, "all eligible candidates selected");
+    kani::cover!(sel.is_empty() && n_elig >= 2 && min_agree <= 1, "no majority: eligible sources disagree");
+    kani::cover!(n_elig < 3 || (!sel.is_empty() && sel.len() < n_elig), "majority found, an outlier dropped (patterns with >= 3 eligible)");
+    kani::cover!(sel.is_empty() && n_elig >= 2 && min_agree == n_elig, "minimum number of agreeing sources not reached");
+    kani::cover!(!has_periodic || (!sel.is_empty() && sel.len() > n_elig), "a periodic source joins the selection without having voted (patterns with a periodic source)");
 }
 
-// thorough: up to 4 candidates
-#[kani::proof]
-#[kani::unwind(9)]
-#[kani::stub(alloc::slice::stable_sort, crate::common::stable_sort_stub)]
-fn c03_select_4() {
-    select_body::<4>(true, false, true, 3);
+
+/// Stubs shared by all `select` harnesses (see common.rs for the reason of each):
+/// stable sort model, sqrt as an uninterpreted function, Vec growth asserted away,
+/// `collect()` as one `for_each` pass.
+macro_rules! select_harness {
+    ($name:ident, $unwind:literal, $body:expr) => {
+        #[kani::proof]
+        #[kani::unwind($unwind)]
+        #[kani::stub(alloc::slice::stable_sort, crate::common::stable_sort_stub)]
+        #[kani::stub(f64::sqrt, crate::common::sqrt_uf)]
+        #[kani::stub(std::vec::Vec::push, crate::common::vec_push_nogrow)]
+        #[kani::stub(std::vec::Vec::reserve, crate::common::vec_reserve_nogrow)]
+        #[kani::stub(std::iter::Iterator::collect, crate::common::CollectOnePass::collect_one_pass)]
+        fn $name() {
+            $body;
+        }
+    };
 }
 
-#[kani::proof]
-#[kani::unwind(5)]
-#[kani::stub(alloc::slice::stable_sort, crate::common::stable_sort_stub)]
-#[kani::stub(f64::sqrt, crate::common::sqrt_uf)]
-#[kani::stub(std::vec::Vec::push, crate::common::vec_push_nogrow)]
-#[kani::stub(std::vec::Vec::reserve, crate::common::vec_reserve_nogrow)]
-fn probe_select_2() {
-    select_body::<2>(true, false, true, 1);
-}
-
-#[kani::proof]
-#[kani::unwind(5)]
-#[kani::stub(alloc::slice::stable_sort, crate::common::stable_sort_stub)]
-#[kani::stub(f64::sqrt, crate::common::sqrt_uf)]
-#[kani::stub(std::vec::Vec::push, crate::common::vec_push_nogrow)]
-#[kani::stub(std::vec::Vec::reserve, crate::common::vec_reserve_nogrow)]
-fn probe_select_2b() {
-    select_body::<2>(true, false, true, 2);
-}
+// quick tier: 3 candidates, symbolic geometry, one concrete eligibility pattern each
+select_harness!(c03_geo3_all, 7, geometry_body::<3>([0, 0, 0]));
+select_harness!(c03_geo3_unsync, 7, geometry_body::<3>([0, 1, 0]));
+select_harness!(c03_geo3_periodic, 7, geometry_body::<3>([2, 0, 0]));
+select_harness!(c03_geo3_uncertain, 7, geometry_body::<3>([0, 0, 3]));
+// thorough tier: 3 candidates with symbolic eligibility (leap, periodic flag, radius against a
+// symbolic limit) on an integer grid; 4 candidates with concrete eligibility patterns
+select_harness!(c03_select, 7, select_body::<3>(true, false, true, 3));
+select_harness!(c03_geo4_all, 9, geometry_body::<4>([0, 0, 0, 0]));
+select_harness!(c03_geo4_mixed, 9, geometry_body::<4>([0, 1, 0, 3]));
+select_harness!(c03_geo4_periodic, 9, geometry_body::<4>([0, 0, 2, 0]));
